@@ -131,7 +131,7 @@ PROPS = {
         assumptions=["user-supplied artifacts holding certificate and key are coherent; replaced artifacts are copies of other entities' files without hash line"],
     ),
     "C13": dict(
-        modules=['Gopki.Props.C13', 'Gopki.Props.Tags'], theorems=['C13.C13_independent_of_alias_and_profile_name', 'C13.C13_hash_independent', 'C13.C13_independent_of_now', 'C13.C13_validity_blind_spot', 'C13.C13_extension_kind_blind_spot', 'Tags.tags_hashed_struct'], ops=['hash', 'hist'],
+        modules=['Gopki.Props.C13', 'Gopki.Props.Tags', 'Gopki.Props.C17'], theorems=['C17.C17_stored_hash_roundtrip', 'C13.C13_independent_of_alias_and_profile_name', 'C13.C13_hash_independent', 'C13.C13_independent_of_now', 'C13.C13_validity_blind_spot', 'C13.C13_extension_kind_blind_spot', 'Tags.tags_hashed_struct'], ops=['hash', 'hist'],
         rule="hash: 60 (thorough 1000) base configurations with and without profile x {4-5 re-readings under other alias / file name / profile name / JSON syntax} x ~22 single-field edits of certificate and profile; JSON pre-image and SHA-1 compared with the model; every pair of variants compared (certificate differs => hash differs); non-trivial = base configuration accepted",
         modelled=['modelled, not verified: encoding/asn1 marshalling (Gopki.Base.Asn1 / Gopki.Model.Generator), encoding/pem, encoding/json (Gopki.Model.Hash), io/fs walk order, MapFS, YAML/JSON-schema front end (identity)', 'signature mathematics and key generation: oracle inputs; verification done by the harness with crypto/ecdsa, crypto/rsa and the keybase brainpool curves'],
         assumptions=[],
@@ -170,7 +170,7 @@ PROPS = {
         assumptions=[],
     ),
     "C17": dict(
-        modules=['Gopki.Props.C17', 'Gopki.Props.C05'], theorems=['C17.C17_scalar_width', 'C17.C17_scalar_roundtrip', 'C17.C17_reject_out_of_range', 'C17.C17_curve_table', 'C17.C17_unknown_curve', 'C17.C17_pkcs8_roundtrip', 'C17.C17_pem_block_roundtrip', 'C17.C17_pem_file_roundtrip', 'Pem.decode_encode', 'Pem.readAll_exportFile', 'C17.C17_sec1_roundtrip', 'X509.decodeDer_enc', 'X509.decodeDer_sound', 'C05.model_curves_eq_facts'], ops=["pkcs8", "pemfile"],
+        modules=['Gopki.Props.C17', 'Gopki.Props.C05'], theorems=['C17.C17_scalar_width', 'C17.C17_scalar_roundtrip', 'C17.C17_reject_out_of_range', 'C17.C17_curve_table', 'C17.C17_unknown_curve', 'C17.C17_pkcs8_roundtrip', 'C17.C17_pem_block_roundtrip', 'C17.C17_pem_file_roundtrip', 'C17.C17_stored_hash_roundtrip', 'Pem.decode_encode', 'Pem.readAll_exportFile', 'C17.C17_sec1_roundtrip', 'X509.decodeDer_enc', 'X509.decodeDer_sound', 'C05.model_curves_eq_facts'], ops=["pkcs8", "pemfile"],
         rule="pkcs8: ten curves x scalars {1, 2, 255, 256, n-1, n/2, 2^(8(w-1)), 2^(8(w-1))-1, 2^(8(w-2)), 20 (thorough 200) random incl. 1-3 leading zero octets} written by gopki and read back (also through PEM, and by crypto/x509 for NIST curves), "
              "the same scalars in six foreign forms (parameters inner-only / both / none / unknown curve, stripped and padded scalars), crypto/x509-written keys, invalid scalars 0, n, n+1, 2^(8w)-1, RSA 1024/2048 (thorough 3072/4096) both directions, "
              "1500 (thorough 30000) single-byte mutations of a valid key; pemfile: all 16 combinations of hash line / certificate / key / request in two orders for three key types, and torn prefixes at every block boundary +-2 and 64 random offsets (thorough: every offset); "
